@@ -3,7 +3,10 @@
    single-request fault position; prints one driver script per reachable idle state. *)
 EXTENDS SpvClient, Integers, Json
 
-CONSTANTS NB, MaxOps, SyncListeners   \* SyncListeners = 0: polling only
+CONSTANTS NB, MaxOps, SyncListeners, EmitEvery,   \* print the script of every EmitEvery-th quiescent state
+            \* SyncListeners = 0: polling only
+          LieMode   \* TRUE: the source's deviations are lying answers (wrong chainwork / height on a
+                    \* correct header) instead of failed / malformed ones
 
 VARIABLE hist
 mvars == <<cvars, hist>>
@@ -15,27 +18,41 @@ MCInit ==
   /\ hist = <<[op |-> "init", src |-> srcTip, ltips |-> ltip]>>
 
 MSetTip == \E b \in Blocks : CSetTip(b) /\ b # srcTip /\ hist' = Append(hist, [op |-> "set_tip", b |-> b])
+NoLieRec == [b |-> -1, k |-> "none", d |-> 0]
+OneLie(L) == IF L = {} THEN NoLieRec ELSE CHOOSE x \in L : TRUE
 MPoll == \E ff \in Faults, bf \in BOOLEAN :
-        /\ CPollBegin(ff[1], ff[2], bf)
-        /\ hist' = Append(hist, [op |-> "poll", fh |-> One(ff[1]), fb |-> One(ff[2]), best |-> bf])
+        /\ LieMode => (ff = <<{}, {}>> /\ ~bf)
+        /\ CPollBegin(ff[1], ff[2], bf, {})
+        /\ hist' = Append(hist, [op |-> "poll", fh |-> One(ff[1]), fb |-> One(ff[2]), best |-> bf,
+                                  lie |-> NoLieRec])
+\* a poll during which the source attaches a wrong chainwork / height to a correct header
+MPollLie == \E L \in Lies \ {{}} :
+        /\ LieMode
+        /\ CPollBegin({}, {}, FALSE, L)
+        /\ hist' = Append(hist, [op |-> "poll", fh |-> -1, fb |-> -1, best |-> FALSE, lie |-> OneLie(L)])
 MSync == \E ff \in Faults, bf \in BOOLEAN :
         /\ CSyncBegin(ff[1], ff[2], bf)
-        /\ hist' = Append(hist, [op |-> "sync", fh |-> One(ff[1]), fb |-> One(ff[2]), best |-> bf])
+        /\ hist' = Append(hist, [op |-> "sync", fh |-> One(ff[1]), fb |-> One(ff[2]), best |-> bf,
+                                  lie |-> NoLieRec])
 MNotify == CNotify /\ UNCHANGED hist
 MPollEnd == CPollEnd /\ UNCHANGED hist
 MSyncEnd == CSyncEnd /\ UNCHANGED hist
 MDead == phase = "dead" /\ UNCHANGED mvars   \* a failed start-up sync ends the run
 
-MCNext == MSetTip \/ MPoll \/ MSync \/ MNotify \/ MPollEnd \/ MSyncEnd \/ MDead
+MCNext == MSetTip \/ MPoll \/ MPollLie \/ MSync \/ MNotify \/ MPollEnd \/ MSyncEnd \/ MDead
 
 MCSpec == MCInit /\ [][MCNext]_mvars
 
 Bound == Len(hist) <= MaxOps + 1
 View == cvars
 
+\* thinning of the printed scripts (printing dominates the run time): a mix of the state's components
+Mix == srcTip + 2 * ltip[1] + 3 * Cardinality(cache) + ChainWork(nb) + 5 * parent[nb] + 7 * parent[nb - 1]
+       + 11 * Cardinality({x \in lied : x.k \in {"over", "hup"}}) + (IF lied = {} THEN 0 ELSE (CHOOSE x \in lied : TRUE).b)
 \* Behaviour generation: print the driver script of every reachable quiescent state.
 EmitScripts ==
   (phase \in {"idle", "dead"} /\ Len(hist) > 1 /\ hist[Len(hist)].op # "set_tip" /\ plan = <<>>
-     /\ after.res # "none")
+     /\ after.res # "none" /\ (LieMode => lied # {})
+     /\ (EmitEvery > 1 => Mix % EmitEvery = 0))
     => PrintT(<<"SCRIPT", ToJson([parent |-> parent, work |-> bwork, ops |-> hist])>>)
 =============================================================================
